@@ -24,6 +24,8 @@ def I(x):
 
 
 def is_concrete_int(x):
+    if isinstance(x, (SInt, SBool)):
+        return False
     return isinstance(x, numbers.Integral) and not isinstance(x, bool) or isinstance(x, _np.integer)
 
 
